@@ -19,6 +19,7 @@ var c01Lines = []string{
 	"", "a", "ab", "ba", "a b", "A", "é", "\xff", "b",
 	`x=5 y=a`, `x=7 y=b d=1s sz=1KB ip=10.0.0.1`, `x=abc`, `y=a`, `d=1h30m x=5.5`, `sz=2MiB y=b`, `ip=10.0.0.9 x=10`, `ip=notanip d=soon sz=big`, `x=-1 y="a b"`,
 	`{"x":5,"y":"a"}`, `{"x":"7","y":"b","d":"1s"}`, `{"x":"abc"}`, `{"y":"a"}`, `{"x":5.5,"sz":"1KB","ip":"10.0.0.1"}`, `{"x":6,"y":"ab","ip":"10.0.0.77"}`,
+	"\x1b[31ma\x1b[0m", `{"_entry":"ab","y":"a"}`,
 	"from 10.0.0.1 ok", "10.0.0.1 and 10.0.0.9", "peer 192.168.1.7", "v6 ::1 end", "no ip here", "10.0.0.9",
 }
 
@@ -109,6 +110,13 @@ func c01Stages() []refmodel.Stage {
 	} {
 		a = append(a, lab(p))
 	}
+	// stages that rewrite the line: filters after them must see the rewritten line, whatever is offloaded
+	a = append(a,
+		&refmodel.LineFormat{T: refmodel.Template{{Label: "app"}, {Lit: " "}, {Line: true}}},
+		&refmodel.LineFormat{T: refmodel.Template{{Lit: "b"}}},
+		&refmodel.Decolorize{},
+		&refmodel.UnpackStage{},
+	)
 	a = append(a, &refmodel.Distinct{Labels: []string{"y"}}, &refmodel.Distinct{Labels: []string{"y", "x"}}, &refmodel.Distinct{Labels: []string{"app"}})
 	return a
 }
